@@ -137,7 +137,7 @@ func buildRouteUnits(c *Ctx, l *lab.Lab, family string, baseIdxs []int, full boo
 	}
 	var list []bs
 	for _, bi := range baseIdxs {
-		for _, sub := range []string{"main", "noslash", "pathquery", "bodyquery", "shared"} {
+		for _, sub := range []string{"main", "noslash", "pathquery", "bodyquery", "bodymap", "shared"} {
 			list = append(list, bs{bi, sub})
 		}
 	}
